@@ -152,6 +152,8 @@ LOOP_VARS = ["i", "x", "it", "row", "el"]
 LAMBDA_PARAMS = ["el", "it", "z", "e"]
 COUNTERS = ["c1", "c2"]
 PARTIAL_DIRS = ["", "", "snippets/", "snippets/sub/", "parts/"]
+SHARED_BASES = ["item", "card", "row"]
+SHARED_DIRS = ["", "a/", "b/", "a/b/", "cards/", "rows/", "snippets/"]
 PARTIAL_EXT = ["", ".html", ".liquid"]
 
 
@@ -182,6 +184,7 @@ class G:
         self.partial_names: list[str] = []
         self._building: set[str] = set()
         self._leak: str | None = None
+        self.root_name = "index"
 
     # ------------------------------------------------------------------- paths
     def _name_seg(self, name: str) -> tuple[str, Any]:
@@ -898,6 +901,30 @@ class G:
                     ("T", "call", cat(name, " ", P("any")), True)]
         return []
 
+    def new_partial_name(self) -> str:
+        """Distinct templates often share their last path component (`a/item`, `b/item`, `item`,
+        `a/b/item.liquid`, `item.html`), also with the root template's file name."""
+        r = self.r
+        root = self.root_name
+        root_base = root.rsplit("/", 1)[-1]
+        for _ in range(6):
+            if r.random() < 0.6:
+                base = r.choice(SHARED_BASES + [root_base, root_base.split(".", 1)[0]])
+                ext = "" if "." in base else r.choice(PARTIAL_EXT)
+                name = f"{r.choice(SHARED_DIRS)}{base}{ext}"
+            else:
+                name = f"{r.choice(PARTIAL_DIRS)}p{len(self.templates)}{r.choice(PARTIAL_EXT)}"
+            # never the root itself, nor a flat name equal to the root's file name (what
+            # Template.name is for the root: a separate mechanism, probed by hand)
+            if name in self.templates or name == root or name == root_base:
+                continue
+            if any(t.startswith(name + "/") or name.startswith(t + "/") for t in self.templates):
+                continue  # a file and a directory of the same name
+            shared = name.rsplit("/", 1)[-1].split(".", 1)[0] in SHARED_BASES + [root_base.split(".", 1)[0]]
+            self.features.add("partial:shared-base-name" if shared else "partial:unique-base-name")
+            return name
+        return f"parts/u{len(self.templates)}.html"
+
     def partial(self, depth: int, scope: list, fl: dict[str, Any]) -> list[Any]:
         r = self.r
         loop = fl.get("loop")
@@ -910,7 +937,7 @@ class G:
             self.features.add("partial-reused")
         else:
             self.n_partials += 1
-            name = f"{r.choice(PARTIAL_DIRS)}p{len(self.templates)}{r.choice(PARTIAL_EXT)}"
+            name = self.new_partial_name()
         head: list[Any] = [self.strlit(name)]
         sc2: list[tuple[str, str]] = list(scope) if tag == "include" else []
         mode = r.choice([None, None, "with", "for"])
@@ -1055,14 +1082,17 @@ class G:
         self.partial_names: list[str] = []
         self.dyn_names = []
         self._ts_quote: str | None = None
-        root_name = r.choice(["index", "index.html", "pages/index.html", "main.liquid", "t/root"])
+        root_name = r.choice(["index", "index.html", "pages/index.html", "main.liquid", "t/root", "pages/item",
+                              "t/card.liquid"])
+        self.root_name = root_name
         root = Src(root_name)
         self.templates[root_name] = root
         self._building.add(root_name)
         if r.random() < self.o.inherit:
             self.features.add("extends")
             self.binders.add("block")
-            chain = ["layouts/base.html"] + (["layouts/mid.html"] if r.random() < 0.4 else [])
+            chain = ["layouts/base.html"] + (
+                [r.choice(["layouts/mid.html", "layouts/v2/base.html", "themes/base.html"])] if r.random() < 0.45 else [])
             blocks = ["head", "main", "foot"][: r.randint(1, 3)]
             # base
             base = Src(chain[0])
